@@ -6,7 +6,7 @@
                         + #live fidRefs whose parent is r + #live xattr fidRefs borrowing r,
     every counted reference points at an existing fidRef, one table entry per key. *)
 From Coq Require Import List Arith Bool ZArith.
-From P9V Require Import Refs.Model Refs.PathFS Refs.Cases Refs.RefProofs Refs.RefStep Refs.LifeProofs Refs.LifeStep Refs.FenceProofs.
+From P9V Require Import Refs.Model Refs.PathFS Refs.Cases Refs.RefProofs Refs.RefStep Refs.LifeProofs Refs.LifeStep Refs.ErrPaths Refs.FenceProofs.
 Import ListNotations.
 
 (** C05_inv: for every history of requests from the initial state and every backend, the reference-count
@@ -100,10 +100,25 @@ Proof.
 Qed.
 Print Assumptions C05_no_use_after_close_partial.
 
-(** PARTIAL: C05_error_paths for one walk component (walkOne, all of its error paths, both walk
-    flavours, wrong QID count): a failing walkOne leaves no File behind - either no handle was
-    handed out or the last backend call closes it.  Missing: the release of the chain of
-    fidRefs of the components walked before the failing one, and Tattach. *)
+(** C05_error_paths for Twalk / Twalkgetattr, after every history and for every backend: a walk that fails -
+    at whatever component (zero-name clone included) and for whatever reason: backend error at any of its
+    calls, wrong QID count, walking through a non-directory or a deleted directory, EBUSY, unknown fid -
+    has, when it is answered, closed exactly once every File the backend returned during the request. *)
+Theorem C05_error_paths : forall B bstep ops (b : B) c fid newfid names g,
+  let s := snd (run B bstep ops (init_state B b)) in
+  let r := step B bstep (OWalk c fid newfid names g) s in
+  s_panic B s = false -> fst (fst r) <> 0 -> s_panic B (snd r) = false ->
+  forall h, s_nexth B s <= h -> h < s_nexth B (snd r) -> close_count h (s_log B (snd r)) = 1.
+Proof.
+  intros B bstep ops b c fid newfid names g. cbv zeta. destruct (history_life B bstep ops b) as (I & K & W & H).
+  intros Hp. exact (walk_error_closes_all B bstep c fid newfid names g _ I K W (H Hp)).
+Qed.
+Print Assumptions C05_error_paths.
+
+(** PARTIAL (what is missing of C05_error_paths: Tattach).  The building block shared by Tattach: a
+    failing walkOne (all of its error paths, both walk flavours, wrong QID count) leaves no File behind -
+    either no handle was handed out or the last backend call closes it.  For Tattach the same argument
+    as for C05_error_paths applies (Refs/ErrPaths.v) but is not written out. *)
 Theorem C05_error_paths_partial : forall B bstep from_h from_node nm getattr s,
   let nh := s_nexth B s in
   let r := walk_one B bstep from_h from_node nm getattr s in
